@@ -78,6 +78,9 @@ pub fn composites<V: Visitor>(v: &mut V) {
         // options / results / tuples
         Opt<StrS>, Opt<M8>, Opt<Mirror<()>>, Opt<Slice<M8>>, Opt<Opt<StrS>>,
         Res<StrS, Mirror<u16>>, Res<M8, M8>, Res<Slice<StrS>, Owned<u8>>, Res<Mirror<()>, StrS>,
+        // components whose offsets compress to a stride: non-empty state without any heap
+        Res<Cip<StrS, IO>, Cip<Owned<u8>, IO>>, ResN<M8, Columns<M8, IO>>, Opt<Cip<StrS, IO>>,
+        Tup2<Cip<StrS, IO>, Cip<Owned<u8>, IO>>,
         Tup1<StrS>, Tup2<M8, StrS>, Tup3<Mirror<usize>, StrS, Slice<StrS>>,
         Tup2<Opt<StrS>, Res<M8, Owned<u8>>>, Tup2N<Collapse<StrS>, M8>,
         // consecutive index pairs
